@@ -28,10 +28,13 @@ CLAIMED = {
                 technique='deterministic simulation: TODAY() dashboard driven through seeded clock jumps (forward/backward), zone and DST changes under an LD_PRELOAD clock shim; responses checked against independent calendar arithmetic on the simulated instant',
                 text='Decides the clock-reachable part of C15: TODAY is the simulated local date at midnight in every zone/DST state, is not folded at translation or cached at construction, and YEAR/MONTH/DAY/DATE/EDATE/EOMONTH/DATEDIF(D,M,Y,YM)/NETWORKDAYS/IF computed from it follow the statement\'s definitions as simulated time passes (1971-2099), for both the generated class and a subclass of the importable base class.',
                 note='The rest of the quantifier of C15 (all (y,m,d) triples in a wide box, all offsets -60..60, all holiday subsets) is an input sweep and is NOT claimed: a defect for dates not reachable from the dashboard goes unseen. Local time is evaluated by an independent POSIX-TZ evaluator cross-checked against libc for the same explicit instant.'),
+    'C09': dict(engine='parsersim', design='4.3',
+                technique='deterministic simulation: facade histories of 1-3 client threads under a seeded baton scheduler (sys.settrace line/opcode pre-emption), simulated disk with injected I/O faults, every response compared with a fresh Parser in a pristine foreign process',
+                text='1-3 client threads, each with its own real Parser, share the process-global token tables (uninitialised at the start of every run: fork-per-run from a lane that never parsed) and one simulated disk; each client issues 3-12 facade calls (set path, set / replace / re-pass / clear the entry cell, enable / disable safety, get, write, replace a workbook on disk); the schedule is sequential, operation-level or line-level pre-emption drawn from the run\'s PRNG; 0-2 I/O faults (open failure, ENOSPC/EIO mid-write, error at close, EIO mid-read) and raw read/write caps are injected. Every get must equal, and every write that returns must leave exactly, the text a brand-new Parser produces for the settings in force — computed in another process with another hash seed, cwd and simulated date. Exploration: schedules, histories and fault placements are sampled, not enumerated.',
+                note='Pre-emption granularity is a source line (an opcode in the token-table files on some runs) of excel2pycl/*; code inside openpyxl/dateutil is not pre-empted (it shares no state between clients). The reference runs the same library, so functional defects common to both paths cancel out. Relaxations are listed in DESIGN.md §4.3 (replaced workbook without set_path, fired read fault, workbook replacement is atomic).'),
 }
 
 NOT_YET = {
-    'C09': 'claimed by DESIGN.md 4.3 (facade histories x thread schedules x I/O faults); check under construction in this round',
 }
 
 NA = {
